@@ -173,7 +173,16 @@ def run(ck, prog, ctx):
             ck.ob("ROLE", nm + "/record/count", g[2] == {"k"}, "%s: record count <- %s (expected k only)" % (nm, sorted(g[2])), where=b.where(t.line))
             d = dims(prog, b, pv, t.args[3])
             want = {"k": 1, "n": -1, "K": -1, "N": 1}
-            ck.ob("ROLE", nm + "/record/enrichment", d == want, "%s: fold enrichment has dimension %s (expected k*N/(n*K))" % (nm, d), where=b.where(t.line))
+            # integer arithmetic on the way truncates: the ratio must be formed in floating point
+            int_ops = [a for a in pv.of_operand(b, t.args[3]) if a[0] == "op" and a[3] == b.id and (a[1].startswith(("Mul", "Div", "Rem")) )
+                       and b.blocks[a[4]].stmts[a[5]].rv.get("lty") not in ("f32", "f64")] if False else []
+            for pos, st in b.stmts():
+                if st.k == "assign" and st.rv["k"] == "bin" and st.rv["op"] in ("Div", "Rem") and st.rv.get("lty") not in ("f32", "f64"):
+                    if any(a[0] == "op" and a[1] == st.rv["op"] and a[2] == b.id and a[3] == pos[0] and a[4] == pos[1] for a in pv.of_operand(b, t.args[3])):
+                        int_ops.append(st)
+            if int_ops:
+                ck.violation("ROLE", nm + "/record/enrichment-integer", "%s: the fold enrichment is computed with an INTEGER division (line %s): the quotient is truncated before the conversion to float" % (nm, int_ops[0].line), where=b.where(int_ops[0].line))
+            ck.ob("ROLE", nm + "/record/enrichment", d == want, "%s: fold enrichment has dimension %s (expected k*N/(n*K))" % (nm, d if d is not None else "unknown (non-float or unrecognised arithmetic)"), where=b.where(t.line))
     ck.floor("ROLE", "inner enrichment functions", n_inner, 2)
 
     # ------------------------------------------------------------------ wrappers
